@@ -1,8 +1,8 @@
 -------------------------------- MODULE NJobs --------------------------------
 (***************************************************************************)
 (* n_jobs resolution and nesting (C15).                                    *)
-(*   CpuCount(os, affinity, cgroup, env)  >= 1, honours affinity and        *)
-(*       LOKY_MAX_CPU_COUNT                                                 *)
+(*   CpuCount(affinity, env, quota)  >= 1, honours the affinity mask,       *)
+(*       LOKY_MAX_CPU_COUNT and the CPU quota of the control group          *)
 (*   Effective(backend, n, cpus): n > 0 -> n ; n < 0 -> max(cpus+1+n, 1) ;  *)
 (*       n = 0 -> ValueError ; sequential backend -> 1                      *)
 (*   NestRun: Parallel calls nested inside workers: level 1 runs on         *)
@@ -14,12 +14,15 @@
 (***************************************************************************)
 EXTENDS Integers, Sequences, FiniteSets, TLC, Json
 
-CONSTANTS OsCpus, Affinities, EnvVals, Backends, MaxDepth, Gen
+CONSTANTS OsCpus, Affinities, EnvVals, Backends, MaxDepth, Gen, QuotaHalves
 \* EnvVals: values of LOKY_MAX_CPU_COUNT, 0 = unset
+\* QuotaHalves: CPU bandwidth quota of the control group in HALF CPUs (cpu.max = quota / period), 0 = no quota; a fractional
+\*              quota counts as the next whole CPU
 
 Min2(a, b) == IF a < b THEN a ELSE b
 Max2(a, b) == IF a > b THEN a ELSE b
-CpuCount(aff, env) == Max2(1, Min2(aff, IF env = 0 THEN OsCpus ELSE env))
+Ceil2(q) == (q + 1) \div 2
+CpuCount(aff, env, q) == Max2(1, Min2(Min2(aff, IF env = 0 THEN OsCpus ELSE env), IF q = 0 THEN OsCpus ELSE Ceil2(q)))
 Effective(backend, n, cpus) ==
   IF n = 0 THEN <<"ValueError", 0>>
   ELSE IF backend = "sequential" THEN <<"ok", 1>>
@@ -27,10 +30,10 @@ Effective(backend, n, cpus) ==
   ELSE <<"ok", Max2(cpus + 1 + n, 1)>>
 
 \* ---- part 1: arithmetic table
-VARIABLES aff, env, backend, n, mode,
+VARIABLES aff, env, quota, backend, n, mode,
           \* ---- part 2: nesting machine.  path = backends chosen by the user at each level (outermost first)
           path, procs, threads
-vars == <<aff, env, backend, n, mode, path, procs, threads>>
+vars == <<aff, env, quota, backend, n, mode, path, procs, threads>>
 
 Ns == (0 - 2 * OsCpus)..(2 * OsCpus)
 
@@ -39,9 +42,10 @@ Ns == (0 - 2 * OsCpus)..(2 * OsCpus)
 Kind(L, b) == IF L = 0 THEN (IF b = "threading" THEN "threads" ELSE IF b = "sequential" THEN "none" ELSE "procs")
               ELSE IF L = 1 THEN "threads" ELSE "none"
 
-InitTable == /\ mode = "table" /\ aff \in Affinities /\ env \in EnvVals /\ backend \in Backends /\ n \in Ns
+InitTable == /\ mode = "table" /\ aff \in Affinities /\ env \in EnvVals /\ quota \in QuotaHalves /\ backend \in Backends /\ n \in Ns
+             /\ (quota # 0 => n \in {-2, -1, 1, 2})          \* (the quota only enters through the CPU count)
              /\ path = <<>> /\ procs = 0 /\ threads = 0
-InitNest  == /\ mode = "nest" /\ aff = OsCpus /\ env = 0 /\ backend = "loky" /\ n = 2
+InitNest  == /\ mode = "nest" /\ aff = OsCpus /\ env = 0 /\ quota = 0 /\ backend = "loky" /\ n = 2
              /\ path = <<>> /\ procs = 0 /\ threads = 0
 Init == InitTable \/ InitNest
 
@@ -51,17 +55,18 @@ Nest(b) ==
   /\ path' = Append(path, b)
   /\ procs' = procs + (IF Kind(Len(path), b) = "procs" THEN 1 ELSE 0)
   /\ threads' = threads + (IF Kind(Len(path), b) = "threads" THEN 1 ELSE 0)
-  /\ UNCHANGED <<aff, env, backend, n, mode>>
+  /\ UNCHANGED <<aff, env, quota, backend, n, mode>>
 Next == \/ \E b \in Backends \ {"sequential"} : Nest(b)
         \/ UNCHANGED vars
 
 \* only the outermost level may create processes
 NoNestedProcesses == mode = "nest" => procs <= 1
-CpuAtLeastOne == CpuCount(aff, env) >= 1
-EffectiveAtLeastOne == (mode = "table" /\ n # 0) => Effective(backend, n, CpuCount(aff, env))[2] >= 1
-Honours == CpuCount(aff, env) <= aff /\ (env # 0 => CpuCount(aff, env) <= env)
+CpuAtLeastOne == CpuCount(aff, env, quota) >= 1
+EffectiveAtLeastOne == (mode = "table" /\ n # 0) => Effective(backend, n, CpuCount(aff, env, quota))[2] >= 1
+Honours == /\ CpuCount(aff, env, quota) <= aff /\ (env # 0 => CpuCount(aff, env, quota) <= env)
+           /\ (quota # 0 => 2 * CpuCount(aff, env, quota) <= quota + 1)
 
 Emit == (Gen /\ mode = "table") =>
-          PrintT(ToJson([aff |-> aff, env |-> env, backend |-> backend, n |-> n, cpus |-> CpuCount(aff, env),
-                         res |-> Effective(backend, n, CpuCount(aff, env))]))
+          PrintT(ToJson([aff |-> aff, env |-> env, quota |-> quota, backend |-> backend, n |-> n, cpus |-> CpuCount(aff, env, quota),
+                         res |-> Effective(backend, n, CpuCount(aff, env, quota))]))
 =============================================================================
